@@ -2,6 +2,7 @@
 C11 no shared defaults, C16 renderer choice)."""
 from pyvc.verify import contract, loc, loc_list
 from pyvc.speclib import fresh, old, abstract
+from contracts.database import same_list
 from pydbml.classes import (Column, Enum, EnumItem, Expression, Index, Note, Project, Reference, StickyNote,
                             Table, TableGroup)
 
@@ -255,3 +256,27 @@ class enum_init:
     def ensures_items(self, name, items, schema, comment, result):
         return (fresh(self.items) and len(self.items) == len(items)
                 and all(self.items[j] is items[j] for j in range(len(items))))
+
+
+@contract('pydbml._classes.enum:Enum.__getitem__')
+class enum_getitem:
+    properties = ('C09',)
+    params = {'self': 'Enum', 'key': 'int'}
+    pure = True
+    ret = 'EnumItem'
+
+    def raises_IndexError(self, key):
+        return not (-len(self.items) <= key < len(self.items))
+
+    def ensures_positional(self, key, result):
+        return result is self.items[key if key >= 0 else len(self.items) + key]
+
+
+@contract('pydbml._classes.enum:Enum.__iter__')
+class enum_iter:
+    properties = ('C09',)
+    params = {'self': 'Enum'}
+    pure = True
+
+    def ensures_lists_items(self, result):
+        return same_list(list(result), self.items)
